@@ -16,11 +16,18 @@ REQUIRED = ['drop_idempotent', 'est_eq_after_deletion', 'incomplete_rows_irrelev
 RULE = ('random categorical data sets (1-3 covariates, <= 8 strata, positivity by construction among the complete '
         'rows; outcome binary / normal / count) with outcome missingness none / MCAR / depending on A and L, to which '
         'incomplete rows are added (none / MCAR / selected depending on A and L): copies of rows with the exposure, a '
-        'covariate, both, and optionally also the outcome blanked; rows shuffled.  Every class built on '
-        'check_input_data is run on the data, on the data with the exposure/covariate-incomplete rows deleted (labels '
-        'kept or reset) and, for the drop-everything classes, on the complete cases.  Cells: IPTW {missing ignored, '
-        'missing_model} x standardize, StochasticIPTW, TimeFixedGFormula predict_missing x standardize, '
-        'SurvivalGFormula, AIPTW, TMLE, StochasticTMLE, GEstimationSNM, the four cross-fit estimators (GLM learner). '
+        'covariate, both, and optionally also the outcome blanked; rows shuffled; the frame carries a frequency-weight '
+        'column and one of five row-label shapes (RangeIndex, shifted, shuffled, string ids, filtered-without-reset).  '
+        'Every class built on check_input_data is run on the data, on the data with the exposure/covariate-incomplete '
+        'rows deleted (labels kept or reset) and, for the drop-everything classes, on the complete cases; the formatted '
+        'frame of a bare instance is compared with the documented row filter / observed-outcome indicator.  Cells: IPTW '
+        '{missing ignored, missing_model} x standardize (with / without weights), StochasticIPTW, TimeFixedGFormula '
+        "predict_missing x standardize x {all, none, custom} without and with weights (the full grid under weights and "
+        "predict_missing=False), SurvivalGFormula, AIPTW, TMLE, StochasticTMLE, GEstimationSNM, the four cross-fit "
+        'estimators (GLM learner); TMLE / AIPTW / StochasticTMLE also with user-supplied learners (custom_model=: an '
+        'exact stratum-mean learner, sklearn-classifier style with predict_proba, or predict only) for the treatment, '
+        'missingness and outcome models, in two doubly-robust layouts (outcome model coarsened, or treatment + '
+        'missingness models coarsened) so that each nuisance path decides the answer in some cell.  '
         'distinct = (data seed, class, options); non-trivial = the data set contains rows missing exposure or '
         'covariates, or missing outcomes whose strata distribution changes the closed form (all-retained-rows '
         'standardization differs from the complete-case one)')
@@ -38,9 +45,28 @@ KTOL = dict(rtol=1e-9, atol=1e-11)
 
 
 # ------------------------------------------------------------------ data
-def make_data(seed, ytype, ymiss, xmiss, weights=False):
+INDEX_SHAPES = ('default', 'shifted', 'shuffled', 'string', 'filtered')
+
+
+def reshape_index(df, shape, rng):
+    """the caller's row labels: RangeIndex / shifted ints / a permutation (label != position) / string ids /
+    increasing with gaps (a frame that was filtered and not re-indexed)"""
+    n = len(df)
+    if shape == 'shifted':
+        df.index = np.arange(n) + 1000
+    elif shape == 'shuffled':
+        df.index = rng.permutation(n)
+    elif shape == 'string':
+        df.index = ['id%05d' % i for i in rng.permutation(n)]
+    elif shape == 'filtered':
+        df.index = np.sort(rng.choice(3 * n, size=n, replace=False))
+    return df
+
+
+def make_data(seed, ytype, ymiss, xmiss, shape='default'):
+    """data set with a frequency-weight column `w` (used only by the cells that pass weights='w')"""
     rng = np.random.default_rng(seed)
-    df, covs = gen.cat_dataset(rng, outcome=ytype, missing=ymiss, max_strata=8, weights=weights,
+    df, covs = gen.cat_dataset(rng, outcome=ytype, missing=ymiss, max_strata=8, weights=True,
                                n_extra=int(rng.integers(150, 400)))    # large enough for 3-way cross-fitting
     if xmiss:
         n_add = int(rng.integers(6, 40))
@@ -62,17 +88,25 @@ def make_data(seed, ytype, ymiss, xmiss, weights=False):
                 extra.iloc[j, extra.columns.get_loc(covs[int(rng.integers(0, len(covs)))])] = np.nan
             if 'Y' in pat:
                 extra.iloc[j, extra.columns.get_loc('Y')] = np.nan
+        if ytype != 'binary':
+            # the incomplete rows hold the most extreme recorded outcomes (a continuous outcome is rescaled by its
+            # range in the TMLE family: the range must be that of the retained rows)
+            keepy = np.flatnonzero(extra['Y'].notna().values)
+            if len(keepy) >= 1:
+                extra.iloc[keepy[0], extra.columns.get_loc('Y')] = float(np.nanmax(df['Y'].values) + 7)
+            if len(keepy) >= 2 and ytype == 'normal':
+                extra.iloc[keepy[1], extra.columns.get_loc('Y')] = float(np.nanmin(df['Y'].values) - 5)
         df = pd.concat([df.astype({c: float for c in covs + ['A']}), extra], ignore_index=True)
         df = df.iloc[rng.permutation(len(df))].reset_index(drop=True)
     else:
         df = df.astype({c: float for c in covs + ['A']})
-    return df, covs
+    return reshape_index(df, shape, rng), covs
 
 
 def variants(df, covs, rng, wcol=None):
     """(deleted: exposure/covariate-incomplete rows removed, labels kept or reset; complete cases)"""
     sub = covs + ['A'] + ([wcol] if wcol else [])
-    dele = df.dropna(subset=sub)
+    dele = df.dropna(subset=sub)          # labels kept: itself a frame filtered without reset_index
     if rng.uniform() < 0.5:
         dele = dele.reset_index(drop=True)
     return dele, df.dropna().reset_index(drop=True)
@@ -112,39 +146,184 @@ class GlmSpy:
 
 
 # ------------------------------------------------------------------ runners (estimates + formatted-data observables)
-def observables(e_df, flag):
-    d = {'kept': [int(v) for v in e_df['index'].tolist()], 'flag': bool(flag)}
-    if '__missing_indicator__' in e_df.columns:
-        d['obs'] = [int(v) for v in e_df['__missing_indicator__'].tolist()]
-    return d
+def observables(df_in, e_df, flag):
+    """what check_input_data handed to the estimator, digested defensively: nothing in here may raise on
+    unexpected content (NaN / non 0-1 indicator, wrong length, foreign labels); oddities go to `problems`"""
+    ob = {'flag': None, 'problems': [], 'kept': None, 'kept_pos': None, 'obs': None, 'n_formatted': None}
+    try:
+        ob['flag'] = bool(flag)
+        ob['n_formatted'] = int(len(e_df))
+        if 'index' not in e_df.columns:
+            ob['problems'].append('formatted data carries no `index` column with the caller\'s labels')
+        else:
+            labels = list(e_df['index'])
+            ob['kept'] = [v.item() if hasattr(v, 'item') else v for v in labels]
+            pos = df_in.index.get_indexer(pd.Index(labels))
+            ob['kept_pos'] = [int(v) for v in pos]
+            if (pos < 0).any():
+                ob['problems'].append('retained rows carry labels that are not labels of the input frame')
+            elif len(set(ob['kept_pos'])) != len(pos):
+                ob['problems'].append('a row of the input frame was retained more than once')
+        if '__missing_indicator__' not in e_df.columns:
+            ob['problems'].append('no observed-outcome indicator column')
+        else:
+            vals = np.asarray(e_df['__missing_indicator__'], dtype=float)
+            ob['obs'] = [None if np.isnan(v) else (int(v) if v in (0.0, 1.0) else float(v)) for v in vals]
+            if np.isnan(vals).any():
+                ob['problems'].append('NaN in the observed-outcome indicator')
+            elif not np.isin(vals, (0.0, 1.0)).all():
+                ob['problems'].append('observed-outcome indicator is not 0/1')
+    except Exception as ex:       # noqa: BLE001  -- reported as a property failure by the caller
+        ob['problems'].append('formatted data could not be read: %r' % (ex,))
+    return ob
+
+
+def expected_format(df, covs, drop_all, wcol=None):
+    """what the documentation of check_input_data promises, computed directly from the caller's frame"""
+    sub = covs + ['A'] + ([wcol] if wcol else []) + (['Y'] if drop_all else [])
+    keep = df.dropna(subset=sub)
+    obs = [1] * len(keep) if drop_all else [int(v) for v in keep['Y'].notna()]
+    return {'kept_pos': [int(v) for v in df.index.get_indexer(keep.index)], 'obs': obs,
+            'flag': (not drop_all) and (0 in obs)}
+
+
+def format_check(chk, which, ob, exp, case):
+    ok = not ob['problems'] and ob['kept_pos'] == exp['kept_pos'] and ob['obs'] == exp['obs'] and \
+        ob['flag'] == exp['flag']
+    what = ob['problems'] or [k for k in ('kept_pos', 'obs', 'flag') if ob[k] != exp[k]]
+    chk.d(ok, '%s: check_input_data retains exactly the rows it documents (exposure and covariates present%s), in the '
+          'caller\'s order, each with its own observed-outcome indicator, and the matching miss_flag' %
+          (which, ' and outcome observed' if which in DROP_ALL else ''),
+          dict(case, mismatch=[str(w) for w in what][:5],
+               got={k: (ob[k][:40] if isinstance(ob[k], list) else ob[k]) for k in ('kept', 'obs', 'flag', 'n_formatted')}))
+    return ok
+
+
+# ---- user-supplied learners (custom_model=): exact stratum proportions / means of the design rows
+class CellLearner:
+    """memorises the mean response of every distinct design row; zEpid deep-copies and fits it"""
+
+    def __init__(self):
+        self.table, self.default = {}, np.nan
+
+    def fit(self, X, y):
+        X, y = np.asarray(X, dtype=float), np.asarray(y, dtype=float)
+        acc = {}
+        for row, v in zip(map(tuple, np.round(X, 9)), y):
+            t = acc.setdefault(row, [0.0, 0])
+            t[0] += v
+            t[1] += 1
+        self.table = {k: t[0] / t[1] for k, t in acc.items()}
+        self.default = float(np.mean(y))
+        return self
+
+    def _mean(self, X):
+        return np.array([self.table.get(r, self.default) for r in map(tuple, np.round(np.asarray(X, dtype=float), 9))])
+
+
+class CellProba(CellLearner):
+    """sklearn-classifier style: predict_proba gives the two class probabilities, predict the class label"""
+
+    def predict_proba(self, X):
+        p = self._mean(X)
+        return np.column_stack([1 - p, p])
+
+    def predict(self, X):
+        return (self._mean(X) > 0.5).astype(int)
+
+
+class CellPredict(CellLearner):
+    """regressor style: predict only"""
+
+    def predict(self, X):
+        return self._mean(X)
+
+
+def learner(kind, continuous=False):
+    return CellPredict() if (kind == 'predict' or continuous) else CellProba()
+
+
+def formatted(which, df, covs, o):
+    """(formatted frame, miss_flag) of a bare instance of the class: public constructor, nothing fitted"""
+    import zepid.causal.ipw as ipw
+    import zepid.causal.gformula as gf
+    import zepid.causal.doublyrobust as dr
+    import zepid.causal.snm as snm
+    w = o.get('w')
+    d = df[covs + ['A', 'Y'] + ([w] if w else [])]
+    if which == 'IPTW':
+        b = ipw.IPTW(d, treatment='A', outcome='Y', weights=w)
+    elif which == 'StochasticIPTW':
+        b = ipw.StochasticIPTW(d, treatment='A', outcome='Y', weights=w)
+    elif which == 'TimeFixedGFormula':
+        b = gf.TimeFixedGFormula(d, exposure='A', outcome='Y', outcome_type=o['ytype'], weights=w)
+        return b.gf, b._miss_flag
+    elif which == 'AIPTW':
+        b = dr.AIPTW(d, exposure='A', outcome='Y', weights=w)
+    elif which == 'GEstimationSNM':
+        b = snm.GEstimationSNM(d, exposure='A', outcome='Y', weights=w)
+    else:
+        b = getattr(dr, which)(d, exposure='A', outcome='Y')
+    return b.df, b._miss_flag
+
+
+def formulas(covs, o):
+    """(treatment, missingness, outcome) model formulas of a cell.  `spec` chooses saturated / main-effects for all
+    three; `gspec='first'` coarsens the treatment model to the first covariate, `mspec='arm'` / `qspec='arm'` coarsen
+    the missingness / outcome model to the treatment arm only (deliberately misspecified nuisance models)"""
+    tm, om = c09.specs(covs, o['spec'])
+    return ('C(%s)' % covs[0] if o.get('gspec') == 'first' else tm, 'A' if o.get('mspec') == 'arm' else om,
+            'A' if o.get('qspec') == 'arm' else om)
 
 
 def run_tmle(df, covs, o):
     from zepid.causal.doublyrobust import TMLE
-    tm, om = c09.specs(covs, o['spec'])
+    tm, mf, om = formulas(covs, o)
+    yt, cu = o['ytype'], o.get('custom')
     t = TMLE(df[covs + ['A', 'Y']], exposure='A', outcome='Y', continuous_bound=o.get('cb', 0.0005))
-    t.exposure_model(tm, print_results=False)
+    t.exposure_model(tm, print_results=False, **({'custom_model': learner(cu)} if cu else {}))
     if o['miss'] == 'mm':
-        t.missing_model(om, print_results=False)
-    yt = o['ytype']
-    if yt == 'binary':
-        t.outcome_model(om, print_results=False)
-    else:
-        t.outcome_model(om, print_results=False, continuous_distribution='poisson' if yt == 'poisson' else 'gaussian')
+        t.missing_model(mf, print_results=False, **({'custom_model': learner(cu)} if cu else {}))
+    kw = {} if yt == 'binary' else {'continuous_distribution': 'poisson' if yt == 'poisson' else 'gaussian'}
+    if cu:
+        kw['custom_model'] = learner(cu, continuous=yt != 'binary')
+    t.outcome_model(om, print_results=False, **kw)
+    if o.get('hist'):
+        t.fit()
     t.fit()
     est = {'RD': t.risk_difference, 'RR': t.risk_ratio, 'OR': t.odds_ratio} if yt == 'binary' else \
         {'ATE': t.average_treatment_effect}
-    return {k: float(v) for k, v in est.items()}, observables(t.df, t._miss_flag)
+    return {k: float(v) for k, v in est.items()}, {}
+
+
+def run_aiptw_dr(df, covs, o):
+    """AIPTW with separately specified (possibly coarsened) nuisance models, built-in GLMs or user-supplied learners"""
+    from zepid.causal.doublyrobust import AIPTW
+    tm, mf, om = formulas(covs, o)
+    yt, cu = o['ytype'], o.get('custom')
+    a = AIPTW(df[covs + ['A', 'Y']], exposure='A', outcome='Y')
+    a.exposure_model(tm, print_results=False, **({'custom_model': learner(cu)} if cu else {}))
+    if o['miss'] == 'mm':
+        a.missing_model(mf, print_results=False, **({'custom_model': learner(cu)} if cu else {}))
+    kw = {'custom_model': learner(cu, continuous=yt != 'binary')} if cu else \
+        {'continuous_distribution': 'poisson' if yt == 'poisson' else 'gaussian'}
+    a.outcome_model(om, print_results=False, **kw)
+    if o.get('hist'):
+        a.fit()
+    a.fit()
+    est = {'RD': a.risk_difference, 'RR': a.risk_ratio} if yt == 'binary' else {'ATE': a.average_treatment_effect}
+    return {k: float(v) for k, v in est.items()}, {}
 
 
 def run_stmle(df, covs, o):
     from zepid.causal.doublyrobust import StochasticTMLE
     tm, om = c09.specs(covs, o['spec'])
+    cu = o.get('custom')
     s = StochasticTMLE(df[covs + ['A', 'Y']], exposure='A', outcome='Y')
-    s.exposure_model(tm)
-    s.outcome_model(om)
+    s.exposure_model(tm, **({'custom_model': learner(cu)} if cu else {}))
+    s.outcome_model(om, **({'custom_model': learner(cu, continuous=o['ytype'] != 'binary')} if cu else {}))
     s.fit(p=o['p'], samples=o['samples'], seed=o['seed'])
-    return {'marginal': float(s.marginal_outcome)}, observables(s.df, s._miss_flag)
+    return {'marginal': float(s.marginal_outcome)}, {}
 
 
 def run_crossfit(df, covs, o):
@@ -158,36 +337,16 @@ def run_crossfit(df, covs, o):
                     GLMSL(sm.families.family.Gaussian()))
     e.fit(n_splits=3 if 'Double' in o['cls'] else 2, n_partitions=2, random_state=o['seed'])
     est = {'RD': e.risk_difference, 'RR': e.risk_ratio} if o['ytype'] == 'binary' else {'ACE': e.ace}
-    return {k: float(v) for k, v in est.items()}, observables(e.df, e._miss_flag)
+    return {k: float(v) for k, v in est.items()}, {}
 
 
 def run_c09(which):
     """IPTW / StochasticIPTW / TimeFixedGFormula / AIPTW / GEstimationSNM through the runners of the C09 check"""
     def f(df, covs, o):
-        # formatted-data observables from a bare instance of the class (public constructor, nothing fitted)
-        import zepid.causal.ipw as ipw
-        import zepid.causal.gformula as gf
-        import zepid.causal.doublyrobust as dr
-        import zepid.causal.snm as snm
-        cols = covs + ['A', 'Y'] + ([o['w']] if o.get('w') else [])
-        if which == 'IPTW':
-            b = ipw.IPTW(df[cols], treatment='A', outcome='Y', weights=o.get('w'))
-            ob = observables(b.df, b._miss_flag)
-        elif which == 'StochasticIPTW':
-            b = ipw.StochasticIPTW(df[cols], treatment='A', outcome='Y', weights=o.get('w'))
-            ob = observables(b.df, b._miss_flag)
-        elif which == 'TimeFixedGFormula':
-            b = gf.TimeFixedGFormula(df[cols], exposure='A', outcome='Y', outcome_type=o['ytype'], weights=o.get('w'))
-            ob = observables(b.gf, b._miss_flag)
-        elif which == 'AIPTW':
-            b = dr.AIPTW(df[cols], exposure='A', outcome='Y', weights=o.get('w'))
-            ob = observables(b.df, b._miss_flag)
-        else:
-            b = snm.GEstimationSNM(df[cols], exposure='A', outcome='Y', weights=o.get('w'))
-            ob = observables(b.df, b._miss_flag)
+        if which == 'AIPTW' and o.get('dr'):
+            return run_aiptw_dr(df, covs, o)
         est, nu, _ = c09.RUNNERS[which](df, covs, o.get('w'), o)
-        ob['nuisance'] = nu
-        return est, ob
+        return est, nu
     return f
 
 
@@ -201,6 +360,19 @@ DROP_ALL = {'StochasticIPTW', 'StochasticTMLE', 'SingleCrossfitAIPTW', 'DoubleCr
 OUTCOME_MODEL_KEEPERS = {'TimeFixedGFormula', 'AIPTW', 'TMLE'}      # keep missing-outcome rows and fit an outcome model
 
 
+def dr_cells(mm, ytype, rng, tier):
+    """TMLE / AIPTW cells with user-supplied learners (custom_model=) for the treatment, missingness and outcome
+    models.  Two layouts, so that every nuisance path matters for the answer: 'G' = treatment and missingness models
+    saturated, outcome model coarsened to the arm (the estimate then hangs on g and m), 'Q' = outcome model saturated,
+    treatment model coarsened to the first covariate and missingness model to the arm (the estimate hangs on Q).
+    Both learner kinds x both layouts in the thorough tier; two of the four combinations (alternating) in the quick tier"""
+    lay = {'G': dict(qspec='arm'), 'Q': dict(gspec='first', mspec='arm')}
+    combos = [(k, l) for k in ('proba', 'predict') for l in ('G', 'Q')]
+    if tier != 'thorough':
+        combos = [combos[0], combos[3]] if rng.integers(0, 2) else [combos[1], combos[2]]
+    return [dict(miss=mm, spec='sat', ytype=ytype, custom=k, dr=l, **lay[l]) for k, l in combos]
+
+
 def cells(which, ytype, has_ymiss, covs, rng, tier):
     spec = lambda: str(rng.choice(['sat', 'main']))
     modes = ['cc', 'mm'] if has_ymiss else ['none']
@@ -209,34 +381,56 @@ def cells(which, ytype, has_ymiss, covs, rng, tier):
     if which == 'IPTW':
         for mm in modes:
             for tgt in (tgts if tier == 'thorough' else (str(rng.choice(tgts)),)):
-                out.append(dict(stab=bool(rng.integers(0, 2)), tgt=tgt, miss=mm, spec=spec(), ytype=ytype))
+                out.append(dict(stab=bool(rng.integers(0, 2)), tgt=tgt, miss=mm, spec=spec(), ytype=ytype,
+                                w=[None, 'w'][int(rng.integers(0, 2))]))
         if has_ymiss:      # the closed-form cell: saturated treatment + missingness models, every target
             for tgt in tgts:
-                out.append(dict(stab=bool(rng.integers(0, 2)), tgt=tgt, miss='mm', spec='sat', ytype=ytype))
+                out.append(dict(stab=bool(rng.integers(0, 2)), tgt=tgt, miss='mm', spec='sat', ytype=ytype,
+                                w=[None, 'w'][int(rng.integers(0, 2))]))
     elif which == 'StochasticIPTW':
-        out.append(dict(plan='marginal', p=[float(rng.choice([0.25, 0.6]))], spec=spec(), ytype=ytype))
+        out.append(dict(plan='marginal', p=[float(rng.choice([0.25, 0.6]))], spec=spec(), ytype=ytype,
+                        w=[None, 'w'][int(rng.integers(0, 2))]))
     elif which == 'TimeFixedGFormula':
+        custom = "g['%s']==0" % covs[0]
         for pm in ((True, False) if has_ymiss else (True,)):
             for tgt in (tgts if tier == 'thorough' else (str(rng.choice(tgts)),)):
-                out.append(dict(tgt=tgt, treatment=str(rng.choice(['all', 'none'])), pm=pm, spec='sat', ytype=ytype))
-                out.append(dict(tgt=tgt, treatment="g['%s']==0" % covs[0], pm=pm, spec='main', ytype=ytype))
+                out.append(dict(tgt=tgt, treatment=str(rng.choice(['all', 'none'])), pm=pm, spec='sat', ytype=ytype, w=None))
+                out.append(dict(tgt=tgt, treatment=custom, pm=pm, spec='main', ytype=ytype, w=None))
+            # with a weights column: predict_missing=False under every standardization target x all / none / custom
+            # (predict_missing=True: the same grid in the thorough tier, one random cell of it in the quick tier)
+            grid = [(tgt, tr) for tgt in tgts for tr in ('all', 'none', custom)]
+            if pm and tier != 'thorough':
+                grid = [grid[int(rng.integers(0, len(grid)))]]
+            for tgt, tr in grid:
+                out.append(dict(tgt=tgt, treatment=tr, pm=pm, spec='main' if tr == custom else 'sat', ytype=ytype,
+                                w='w'))
     elif which == 'AIPTW':
         for mm in modes:
-            out.append(dict(miss=mm, spec=spec(), ytype=ytype))
+            out.append(dict(miss=mm, spec=spec(), ytype=ytype, w=[None, 'w'][int(rng.integers(0, 2))]))
+            out.extend(dr_cells(mm, ytype, rng, tier))
     elif which == 'GEstimationSNM':
         for mm in modes:
             out.append(dict(snm=str(rng.choice(['A', 'A + A:L1'])), miss=mm, stab=bool(rng.integers(0, 2)), spec=spec(),
-                            ytype=ytype))
+                            ytype=ytype, w=[None, 'w'][int(rng.integers(0, 2))]))
     elif which == 'TMLE':
         for mm in modes:
             out.append(dict(miss=mm, spec=spec(), ytype=ytype))
         if has_ymiss:
             out.append(dict(miss='mm', spec='sat', ytype=ytype, cb=0.0))
+        for mm in modes:
+            out.extend(dict(c, cb=0.0) for c in dr_cells(mm, ytype, rng, tier))
     elif which == 'StochasticTMLE':
-        out.append(dict(p=float(rng.choice([0.3, 0.7])), samples=15, seed=int(rng.integers(0, 10 ** 6)), spec=spec(),
-                        ytype=ytype))
+        base = dict(p=float(rng.choice([0.3, 0.7])), samples=15, seed=int(rng.integers(0, 10 ** 6)), ytype=ytype)
+        out.append(dict(base, spec=spec()))
+        out.append(dict(base, spec='sat', custom=str(rng.choice(['proba', 'predict']))))
     else:
         out.append(dict(cls=which, seed=int(rng.integers(0, 10 ** 6)), ytype=ytype))
+    # history on the one object: half of the cells of the classes with a documented refit (a second fit(), another
+    # marginal structural model or plan first) run after an earlier fit; judged like the others, and against a fresh object
+    if which in ('IPTW', 'TimeFixedGFormula', 'AIPTW', 'TMLE', 'GEstimationSNM', 'StochasticIPTW'):
+        for o in out:
+            if rng.integers(0, 2):
+                o['hist'] = ['twice', 'respec'][int(rng.integers(0, 2))]
     return out
 
 
@@ -245,9 +439,16 @@ def same_est(a, b, tol):
     return set(a) == set(b) and all(close(a[k], b[k], **tol) for k in a)
 
 
-def spy_checks(chk, which, spy, df, covs, ob, case):
-    """(c): which rows reached the fits"""
-    kept = df.loc[ob['kept']]
+def measures_of(cf, tgt, ytype, with_m0=True):
+    m1, m0 = cf[(tgt, 1)], cf[(tgt, 0)]
+    d = {'binary': {'RD': m1 - m0, 'RR': m1 / m0, 'OR': (m1 / (1 - m1)) / (m0 / (1 - m0)), 'm0': m0},
+         'normal': {'ATE': m1 - m0, 'm0': m0}, 'poisson': {'ratio': m1 / m0, 'm0': m0}}[ytype]
+    return {k: float(v) for k, v in d.items() if with_m0 or k != 'm0'}
+
+
+def spy_checks(chk, which, spy, df, exp, case):
+    """(c): which rows reached the fits (expected sets computed from the caller's frame, not from zEpid's output)"""
+    kept = df.iloc[exp['kept_pos']]
     n_kept, y_obs = len(kept), kept['Y'].dropna().values
     for c in spy.calls:
         lhs = c['formula'].split('~')[0].strip()
@@ -258,29 +459,30 @@ def spy_checks(chk, which, spy, df, covs, ob, case):
             chk.d(ok, '%s: outcome model fitted on exactly the retained rows with an observed outcome' % which,
                   dict(case, fit_rows=len(c['endog']), observed=len(y_obs)))
         elif lhs in ('A', '__missing_indicator__') and which in ('IPTW', 'AIPTW', 'TMLE'):
-            chk.d(len(c['endog']) == n_kept, '%s: %s model fitted on exactly the retained rows (missing outcomes '
-                  'included, incomplete rows excluded)' % (which, 'treatment' if lhs == 'A' else 'missingness'),
+            ok = len(c['endog']) == n_kept
+            if ok and lhs == '__missing_indicator__':
+                ok = bool(np.array_equal(c['endog'], kept['Y'].notna().values.astype(float)))
+            chk.d(ok, '%s: %s model fitted on exactly the retained rows (missing outcomes included, incomplete rows '
+                  'excluded)%s' % (which, 'treatment' if lhs == 'A' else 'missingness',
+                                   '' if lhs == 'A' else ' with response = outcome observed'),
                   dict(case, fit_rows=len(c['endog']), retained=n_kept))
 
 
-def model_checks(chk, drv, which, o, df, covs, ob, est, case, dc):
+def model_checks(chk, drv, which, o, df, covs, ob, nu, est, case, dc):
     """K: check_input_data vs the Lean model; estimator model composed with it, on the data and after deletion"""
-    raw = enc_raw(df, covs)
+    raw = enc_raw(df, covs, o.get('w'))
     rep, _ = drv.ask('c10', est='check', dc=int(dc), **raw)
-    ok = rep['status'] == 'ok' and c09_ints(rep['kept']) == ob['kept'] and (rep['miss'] == '1') == ob['flag'] and \
-        ('obs' not in ob or c09_ints(rep['obs']) == ob['obs']) and rep['same'] == '1'
+    ok = rep['status'] == 'ok' and c09_ints(rep['kept']) == ob['kept_pos'] and (rep['miss'] == '1') == ob['flag'] and \
+        c09_ints(rep['obs']) == ob['obs'] and rep['same'] == '1'
     chk.k(ok, '%s: rows kept / observed-outcome indicator / miss_flag of check_input_data = model' % which,
           dict(case, model={k: v for k, v in rep.items() if len(v) < 80}))
-    nu = ob.get('nuisance')
     if which == 'IPTW' and o.get('msm') != 'modifier':
         rep, _ = drv.ask('c10', est='iptw', dc=0, stab=int(o['stab']), tgt=o['tgt'], n=c09.encv(nu['n']),
                          d=c09.encv(nu['d'], 0.5), mw=c09.encv(nu['mw']), **raw)
         ok = rep['status'] == 'ok' and rep['same'] == '1'
         if ok:
-            m1, m0 = Fraction(rep['m1']), Fraction(rep['m0'])
-            me = {'binary': {'RD': m1 - m0, 'RR': m1 / m0, 'OR': (m1 / (1 - m1)) / (m0 / (1 - m0)), 'm0': m0},
-                  'normal': {'ATE': m1 - m0, 'm0': m0}, 'poisson': {'ratio': m1 / m0, 'm0': m0}}[o['ytype']]
-            ok = same_est({k: float(v) for k, v in me.items()}, est, KTOL)
+            cfm = {(o['tgt'], 1): Fraction(rep['m1']), (o['tgt'], 0): Fraction(rep['m0'])}
+            ok = same_est(measures_of(cfm, o['tgt'], o['ytype']), est, KTOL)
         chk.k(ok, 'IPTW: weight formula + MSM on check_input(data) = model, and = model after deletion', case)
     if which == 'TimeFixedGFormula':
         rep, _ = drv.ask('c10', est='gform', dc=0, tgt=o['tgt'], pm=int(o['pm']), q1=c09.encv(nu['q']),
@@ -293,17 +495,123 @@ def c09_ints(s):
     return [] if s in ('', '[]') else [int(t) for t in s.split(',')]
 
 
-def one_dataset(chk, drv, rng, ytype, ymiss, xmiss, tier, classes, only=None, seed=None):
+def attempt(f, *a):
+    """('ok', value) or ('err', exception): nothing zEpid does with a generated data set may abort the check"""
+    try:
+        return 'ok', f(*a)
+    except Exception as ex:       # noqa: BLE001
+        return 'err', ex
+
+
+def one_case(chk, drv, which, o, df, covs, dele, cc, cfs, ytype, case):
+    w = o.get('w')
+    dc = which in DROP_ALL
+    # ---- what check_input_data hands to the estimator (public constructor only), against the documentation
+    exp = expected_format(df, covs, dc, w)
+    st, val = attempt(lambda: formatted(which, df, covs, o))
+    if st == 'err':
+        chk.d(False, '%s: constructor raises on a data set with incomplete rows / this index' % which,
+              dict(case, error=repr(val)[:300]))
+        return
+    ob = observables(df, val[0], val[1])
+    fmt_ok = format_check(chk, which, ob, exp, case)
+    # ---- the estimator on the data, after the user deleted the incomplete rows, on the complete cases
+    spy = GlmSpy()
+    with spy:
+        s1, r1 = attempt(RUN[which], df, covs, o)
+    s2, r2 = attempt(RUN[which], dele, covs, o)
+    if s1 == 'err' or s2 == 'err':
+        same_err = s1 == s2 and type(r1) is type(r2)
+        chk.d(same_err, '%s: raises on the data iff it raises after deleting the incomplete rows' % which,
+              dict(case, on_data=repr(r1)[:300], after_deletion=repr(r2)[:300]))
+        if s1 == 'err' and dc:
+            s3, r3 = attempt(RUN[which], cc, covs, o)
+            chk.d(s3 == 'err' and type(r3) is type(r1), '%s: drop-everything estimator = its complete-case result '
+                  '(raises on the data, runs on the complete cases)' % which, dict(case, error=repr(r1)[:300]))
+        if same_err and fmt_ok:
+            # the estimator itself cannot be computed on this data set (e.g. separation inside a cross-fit split)
+            chk.discard('%s could not be computed on the generated data (same error after deletion)' % which)
+        return
+    (e1, nu), (e2, _) = r1, r2
+    case['on_data'], case['after_deletion'] = e1, e2
+    # (a)
+    chk.d(same_est(e1, e2, XTOL), '%s: rows missing exposure/covariates do not influence the result '
+          '(= result after deleting them)' % which, case)
+    if o.get('hist'):
+        s6, r6 = attempt(RUN[which], df, covs, {k: v for k, v in o.items() if k != 'hist'})
+        case['fresh_object'] = r6[0] if s6 == 'ok' else repr(r6)[:300]
+        chk.d(s6 == 'ok' and same_est(e1, r6[0], dict(rtol=1e-10, atol=1e-12)), '%s: the missing-data / weight '
+              'handling is not compounded by an earlier fit() on the same object (= fresh object)' % which, case)
+    # (b)
+    if dc:
+        s3, r3 = attempt(RUN[which], cc, covs, o)
+        case['complete_case'] = r3[0] if s3 == 'ok' else repr(r3)[:300]
+        chk.d(s3 == 'ok' and same_est(e1, r3[0], XTOL), '%s: drop-everything estimator = its complete-case result'
+              % which, case)
+    # (c)
+    spy_checks(chk, which, spy, df, exp, case)
+    # (d) saturated treatment + missingness models: exact closed form over all retained rows
+    cf_all, cf_cc = cfs[('all', w)], cfs[('cc', w)]
+    if which == 'IPTW' and o['miss'] == 'mm' and o['spec'] == 'sat':
+        want = measures_of(cf_all, o['tgt'], ytype)
+        chk.d(same_est(e1, want, CTOL), 'IPTW (saturated treatment + missingness models): observed-outcome '
+              'stratum means standardized over all retained rows', dict(case, want=want))
+    # (doubly robust: it suffices that treatment + missingness models, or the outcome model, are saturated -- the
+    #  layouts 'G' and 'Q' of dr_cells; P10.tmle_missing_saturated / P02)
+    if which == 'TMLE' and o['miss'] in ('mm', 'none') and o['spec'] == 'sat' and (ytype == 'binary' or o.get('cb') == 0.0):
+        want = measures_of(cf_all, 'population', 'binary' if ytype == 'binary' else 'normal', with_m0=False)
+        chk.d(same_est(e1, want, dict(rtol=1e-6, atol=1e-7)), 'TMLE (saturated models%s): observed-outcome '
+              'stratum means standardized over all retained rows' %
+              (', user-supplied %s learners' % o['custom'] if o.get('custom') else ''), dict(case, want=want))
+    if which == 'AIPTW' and o.get('dr') and o['miss'] == 'none':
+        want = measures_of(cf_all, 'population', 'binary' if ytype == 'binary' else 'normal', with_m0=False)
+        want.pop('OR', None)
+        chk.d(same_est(e1, want, CTOL), 'AIPTW (no missing outcomes, user-supplied %s learners, layout %s): '
+              'standardized stratum means' % (o['custom'], o['dr']), dict(case, want=want))
+    if o.get('custom') and which != 'StochasticTMLE':
+        # (StochasticTMLE: no clause of C10 speaks about its plan logic -- its custom-outcome-model path once ignored
+        #  the treatment plan, found here and repaired under C14 --; the custom cell is kept for the deletion /
+        #  complete-case clauses only)
+        # a user-supplied learner that returns the stratum proportions/means is interchangeable with the built-in
+        # saturated GLM: same fitted values -> same estimate
+        s4, r4 = attempt(RUN[which], df, covs, {k: v for k, v in o.items() if k != 'custom'})
+        case['built_in'] = r4[0] if s4 == 'ok' else repr(r4)[:300]
+        chk.d(s4 == 'ok' and same_est(e1, r4[0], dict(rtol=1e-6, atol=1e-7)), '%s: user-supplied %s learners for the '
+              'nuisance models give the result of the built-in saturated models' % (which, o['custom']), case)
+    if which == 'TimeFixedGFormula':
+        if o['spec'] == 'sat' and o['treatment'] in ('all', 'none'):
+            a = 1 if o['treatment'] == 'all' else 0
+            cfp = cf_all if o['pm'] else cf_cc   # predict_missing=False: target = rows with an observed outcome
+            chk.d(close(e1['marginal'], float(cfp[(o['tgt'], a)]), **CTOL), 'TimeFixedGFormula%s: predict_missing '
+                  'switch selects all retained rows / observed-outcome rows as the target (exact closed form)' %
+                  (' with weights' if w else ''), dict(case, want=float(cfp[(o['tgt'], a)])))
+        if not o['pm']:
+            # predict_missing=False = the answer on the data from which the missing-outcome rows were deleted
+            s5, r5 = attempt(RUN[which], dele.dropna(subset=['Y']), covs, o)
+            case['after_deleting_missing_outcomes'] = r5[0] if s5 == 'ok' else repr(r5)[:300]
+            chk.d(s5 == 'ok' and same_est(e1, r5[0], dict(rtol=1e-10, atol=1e-12)), 'TimeFixedGFormula%s: '
+                  'predict_missing=False = result after deleting the rows with a missing outcome' %
+                  (' with weights' if w else ''), case)
+    if drv is not None and fmt_ok and not o.get('custom'):
+        model_checks(chk, drv, which, o, df, covs, ob, nu, e1, case, dc)
+
+
+def one_dataset(chk, drv, rng, ytype, ymiss, xmiss, tier, classes, only=None, seed=None, shape=None):
     seed = int(rng.integers(0, 2 ** 31)) if seed is None else seed
-    df, covs = make_data(seed, ytype, ymiss, xmiss)
+    shape = INDEX_SHAPES[seed % len(INDEX_SHAPES)] if shape is None else shape
+    df, covs = make_data(seed, ytype, ymiss, xmiss, shape)
     vr = np.random.default_rng(seed + 7)
     dele, cc = variants(df, covs, vr)
     n_inc = int(len(df) - len(df.dropna(subset=covs + ['A'])))
-    cf_all, cf_cc = gen.closed_form(dele, covs), gen.closed_form(cc, covs)
+    cfs = {('all', None): gen.closed_form(dele, covs), ('cc', None): gen.closed_form(cc, covs),
+           ('all', 'w'): gen.closed_form(dele, covs, 'w'), ('cc', 'w'): gen.closed_form(cc, covs, 'w')}
+    cf_all, cf_cc = cfs[('all', None)], cfs[('cc', None)]
     shifts = abs(float(cf_all[('population', 1)] - cf_cc[('population', 1)])) > 1e-9
     rec = gen.describe(df, covs, outcome=ytype, ymiss=ymiss, xmiss=xmiss, data_seed=seed, incomplete_rows=n_inc,
-                       retained=int(len(dele)), complete_cases=int(len(cc)))
+                       retained=int(len(dele)), complete_cases=int(len(cc)), index=shape,
+                       deleted_labels='reset' if isinstance(dele.index, pd.RangeIndex) else 'kept')
     chk.count('data/y=%s/x=%s/%s' % (ymiss, xmiss, ytype))
+    chk.count('index/' + shape)
     # gate H: reference saturated treatment fit on the retained rows = cell proportions
     import statsmodels.formula.api as smf
     chk.h_checked += 1
@@ -313,10 +621,13 @@ def one_dataset(chk, drv, rng, ytype, ymiss, xmiss, tier, classes, only=None, se
         chk.discard('reference saturated fit missed the cell proportions by > 1e-7')
         return
     if drv is not None:     # the model's closed form on check_input(data), before and after deletion, vs Fractions
-        r, _ = drv.ask('c10', est='std', dc=0, **enc_raw(df, covs))
-        ok = r['status'] == 'ok' and r['same'] == '1' and all(
-            Fraction(r['%s%d' % (t, a)]) == cf_all[(t, a)] for t in ('population', 'exposed', 'unexposed') for a in (0, 1))
-        chk.k(ok, 'Lean std on check_input(data) == after deletion (exact) == independent closed form', {'data': rec})
+        for w in (None, 'w'):
+            r, _ = drv.ask('c10', est='std', dc=0, **enc_raw(df, covs, w))
+            ok = r['status'] == 'ok' and r['same'] == '1' and all(
+                Fraction(r['%s%d' % (t, a)]) == cfs[('all', w)][(t, a)]
+                for t in ('population', 'exposed', 'unexposed') for a in (0, 1))
+            chk.k(ok, 'Lean std on check_input(data) == after deletion (exact) == independent closed form',
+                  {'data': rec, 'weights': w})
     has_ymiss = bool(dele['Y'].isna().any())
     for which in classes:
         opts = [only] if only is not None else cells(which, ytype, has_ymiss, covs, rng, tier)
@@ -325,67 +636,14 @@ def one_dataset(chk, drv, rng, ytype, ymiss, xmiss, tier, classes, only=None, se
             key = (seed, which, tuple(sorted((k, str(v)) for k, v in o.items())))
             chk.case(case, key if (n_inc > 0 or shifts) else None, sample=case if chk.evals % 37 == 0 else None)
             chk.count('%s/%s' % (which, '/'.join('%s=%s' % (k, v) for k, v in sorted(o.items())
-                                                 if k in ('miss', 'tgt', 'pm', 'snm', 'cb'))))
-            try:
-                with GlmSpy() as spy:
-                    e1, ob = RUN[which](df, covs, o)
-            except (ValueError, np.linalg.LinAlgError, FloatingPointError) as ex:
-                # the estimator itself cannot be computed on this data set (e.g. separation inside a cross-fit
-                # split): the property still demands the same behaviour after deletion
-                try:
-                    RUN[which](dele, covs, o)
-                    same_err = False
-                except type(ex):
-                    same_err = True
-                chk.d(same_err, '%s: raises on the data iff it raises after deleting the incomplete rows' % which,
-                      dict(case, error=repr(ex)[:200]))
-                if which in DROP_ALL:       # ... and iff it raises on the complete cases
-                    try:
-                        RUN[which](cc, covs, o)
-                        cc_err = False
-                    except type(ex):
-                        cc_err = True
-                    chk.d(cc_err, '%s: drop-everything estimator = its complete-case result (raises on the data, '
-                          'runs on the complete cases)' % which, dict(case, error=repr(ex)[:200]))
-                chk.discard('%s could not be computed on the generated data (same error after deletion)' % which)
-                continue
-            e2, _ = RUN[which](dele, covs, o)
-            case['on_data'], case['after_deletion'] = e1, e2
-            # (a)
-            chk.d(same_est(e1, e2, XTOL), '%s: rows missing exposure/covariates do not influence the result '
-                  '(= result after deleting them)' % which, case)
-            # (b)
-            dc = which in DROP_ALL
-            if dc:
-                e3, _ = RUN[which](cc, covs, o)
-                case['complete_case'] = e3
-                chk.d(same_est(e1, e3, XTOL), '%s: drop-everything estimator = its complete-case result' % which, case)
-                chk.d(not ob['flag'] and len(ob['kept']) == len(cc), '%s: retains exactly the complete cases' % which,
-                      case)
-            # (c)
-            spy_checks(chk, which, spy, df, covs, ob, case)
-            # (d) saturated treatment + missingness models: exact closed form over all retained rows
-            if which == 'IPTW' and o['miss'] == 'mm' and o['spec'] == 'sat':
-                m1, m0 = cf_all[(o['tgt'], 1)], cf_all[(o['tgt'], 0)]
-                want = {'binary': {'RD': m1 - m0, 'RR': m1 / m0, 'OR': (m1 / (1 - m1)) / (m0 / (1 - m0)), 'm0': m0},
-                        'normal': {'ATE': m1 - m0, 'm0': m0}, 'poisson': {'ratio': m1 / m0, 'm0': m0}}[ytype]
-                want = {k: float(v) for k, v in want.items()}
-                chk.d(same_est(e1, want, CTOL), 'IPTW (saturated treatment + missingness models): observed-outcome '
-                      'stratum means standardized over all retained rows', dict(case, want=want))
-            if which == 'TMLE' and o['miss'] == 'mm' and o['spec'] == 'sat' and (ytype == 'binary' or o.get('cb') == 0.0):
-                m1, m0 = cf_all[('population', 1)], cf_all[('population', 0)]
-                want = {'RD': m1 - m0, 'RR': m1 / m0, 'OR': (m1 / (1 - m1)) / (m0 / (1 - m0))} if ytype == 'binary' \
-                    else {'ATE': m1 - m0}
-                want = {k: float(v) for k, v in want.items()}
-                chk.d(same_est(e1, want, dict(rtol=1e-6, atol=1e-7)), 'TMLE (saturated models): observed-outcome '
-                      'stratum means standardized over all retained rows', dict(case, want=want))
-            if which == 'TimeFixedGFormula' and o['spec'] == 'sat' and o['treatment'] in ('all', 'none'):
-                a = 1 if o['treatment'] == 'all' else 0
-                cfp = cf_all if o['pm'] else cf_cc   # predict_missing=False: target = rows with an observed outcome
-                chk.d(close(e1['marginal'], float(cfp[(o['tgt'], a)]), **CTOL), 'TimeFixedGFormula: predict_missing '
-                      'switch selects all retained rows / observed-outcome rows as the target', case)
-            if drv is not None:
-                model_checks(chk, drv, which, o, df, covs, ob, e1, case, dc)
+                                                 if k in ('miss', 'tgt', 'pm', 'snm', 'cb', 'w', 'custom', 'hist'))))
+            st, val = attempt(one_case, chk, drv, which, o, df, covs, dele, cc, cfs, ytype, case)
+            if st == 'err':
+                import traceback
+                chk.d(False, '%s: zEpid handed back something the check could not digest (reported as a property '
+                      'failure with the data set attached, not as a crash)' % which,
+                      dict(case, error=repr(val)[:300],
+                           traceback=''.join(traceback.format_exception(type(val), val, val.__traceback__))[-1500:]))
 
 
 def one_survival(chk, drv, rng, tier, seed=None):
@@ -394,17 +652,23 @@ def one_survival(chk, drv, rng, tier, seed=None):
     r = np.random.default_rng(seed + 3)
     for col, frac in (('A', 0.03), ('L1', 0.03), ('L2', 0.02), ('Y', 0.04)):
         df.loc[r.uniform(size=len(df)) < frac, col] = np.nan
+    shape = INDEX_SHAPES[seed % len(INDEX_SHAPES)]
+    df = reshape_index(df, shape, r)
     dele = df.dropna(subset=['A', 'L1', 'L2'])
     cc = df.dropna().reset_index(drop=True)
-    rec = {'rows': int(len(df)), 'retained': int(len(cc)), 'data_seed': seed, 'kind': 'survival'}
+    rec = {'rows': int(len(df)), 'retained': int(len(cc)), 'data_seed': seed, 'kind': 'survival', 'index': shape}
     for tr in ('all', 'natural'):
         o = dict(treatment=tr, model='A + L1 + L2 + t')
         case = {'estimator': 'SurvivalGFormula', 'options': o, 'data': rec}
         chk.case(case, (seed, 'SGF', tr))
         chk.count('SurvivalGFormula/%s' % tr)
-        e1, _, gf = c09.est_survival(df, 'w', o)
-        e2, _, _ = c09.est_survival(dele, 'w', o)
-        e3, _, _ = c09.est_survival(cc, 'w', o)
+        runs = [attempt(c09.est_survival, d, 'w', o) for d in (df, dele, cc)]
+        if any(st == 'err' for st, _ in runs):
+            chk.d(all(st == 'err' for st, _ in runs) and len({type(v) for _, v in runs}) == 1,
+                  'SurvivalGFormula: raises on the data iff it raises after deletion / on the complete cases',
+                  dict(case, errors=[repr(v)[:200] for st, v in runs if st == 'err']))
+            continue
+        (e1, _, gf), (e2, _, _), (e3, _, _) = (v for _, v in runs)
         case['on_data'], case['after_deletion'], case['complete_case'] = e1, e2, e3
         chk.d(same_est(e1, e2, XTOL), 'SurvivalGFormula: rows missing exposure/covariates do not influence the result',
               case)
@@ -447,11 +711,15 @@ MAIN = ['IPTW', 'StochasticIPTW', 'TimeFixedGFormula', 'AIPTW', 'TMLE', 'Stochas
 
 def run(chk, drv, rng, tier):
     reps = 1 if tier == 'quick' else 3
+    k = 0
     for _ in range(reps):
         for ytype in (('binary', 'normal') if tier == 'quick' else ('binary', 'normal', 'poisson')):
             for ymiss in (None, 'mcar', 'mar'):
                 for xmiss in (None, 'mcar', 'mar'):
-                    cls = MAIN if tier == 'thorough' else MAIN[:7] + [str(c) for c in rng.choice(MAIN[7:], 2, replace=False)]
+                    # one (quick) / two (thorough) cross-fit classes per data set, in rotation: every class meets every
+                    # outcome type with incomplete rows in each run
+                    cls = MAIN[:7] + [MAIN[7 + k % 4]] + ([MAIN[7 + (k + 1 + k // 4) % 4]] if tier == 'thorough' else [])
+                    k += 1
                     one_dataset(chk, drv, rng, ytype, ymiss, xmiss, tier, cls)
         for _ in range(2):
             one_survival(chk, drv, rng, tier)
@@ -470,13 +738,15 @@ def replay(rec):
                 one_survival(chk, None, None, 'quick', seed=data['data_seed'])
             elif 'data_seed' in data:
                 one_dataset(chk, None, None, data['outcome'], data['ymiss'], data['xmiss'], 'quick', [c['estimator']],
-                            only=o, seed=data['data_seed'])
+                            only=o, seed=data['data_seed'], shape=data.get('index'))
             else:
                 print('  (effect-measure re-check: rerun with the recorded seed)')
         for g in chk.d_fail:
             print(g['gate'], g['what'], '| options', o, '| on data', g['case'].get('on_data'), '| after deletion',
                   g['case'].get('after_deletion'), '| complete case', g['case'].get('complete_case'), '| want',
-                  g['case'].get('want'))
+                  g['case'].get('want'), '| built-in', g['case'].get('built_in'), '| fresh', g['case'].get('fresh_object'),
+                  '| mismatch',
+                  g['case'].get('mismatch'), g['case'].get('error'))
         n += len(chk.d_fail)
     print('failures reproduced:', n)
     return 1 if n else 0
